@@ -731,6 +731,7 @@ class Runner:
                                "lines": lines, "exc": exc})
             return
         world.uuid.next = "uuid-%d" % i
+        pending0 = set(str(k) for k in world.engine.task_dispatcher.pending_requests)
         npub = len(world.disp.published)
         data = body_bytes(op)
         world.disp.fail_publish = bool(op.get("publish_fails"))
@@ -751,6 +752,8 @@ class Runner:
               "published": [dict(project_event(e), shared=world.disp.shared.get(id(e))) for e in pub]}
         if status == 200 and op["action"] == "CreateStateMachine" and isinstance(resp.get("body"), dict):
             st["arn_ok"] = bool(world.mod.valid_state_machine_arn(resp["body"].get("stateMachineArn")))
+        if op["action"] == "StartSyncExecution":
+            st["pending_after"] = sorted(str(k) for k in world.engine.task_dispatcher.pending_requests if str(k) not in pending0)
         if status == 200 and op["action"] in ("CreateStateMachine", "UpdateStateMachine", "DeleteStateMachine"):
             # what a restarted engine would load: the store's file (the stores' own persistence is C20's subject; here:
             # the front end writes what it answered *through* the store, not just into the object it read from it)
@@ -846,6 +849,11 @@ def check_step(st, answer):
     if action == "DescribeStateMachine" and st["kind"] == "call" and resp["status"] != 200 and \
             isinstance(body.get("stateMachineArn"), str) and body["stateMachineArn"] in before["machines"]:
         out.append(("impl-violates-law", LAW_F5_DESCRIBE, {"resp": resp, "arn": body["stateMachineArn"]}, None))
+    if st.get("pending_after") and not op.get("publish_fails"):
+        # (a start whose publish is refused by the broker — 500 — does leave its entry and its 30-minute timer behind:
+        # recorded as a lead in DESIGN §11.2, the broker's refusal is an environment fault outside the property)
+        out.append(("impl-violates-law", "an answered StartSyncExecution (result, refusal or time-out) leaves no pending request registered for it",
+                    {"resp": resp, "pending_requests": st["pending_after"]}, None))
     if "persisted" in st and cj(st["persisted"]) != cj(after["machines"]):
         out.append(("impl-violates-law", "a change the API answered with 200 has been written through the store (a restarted engine reads it back)",
                     {"resp": resp, "stored_in_memory": after["machines"], "in_the_store_file": st["persisted"]}, None))
